@@ -33,8 +33,8 @@ spec fn abs(v: Value) -> JVal
     match v {
         Value::Null => JVal::Null,
         Value::Bool(b) => JVal::Bool(b),
-        Value::Number(Number::I64(n)) => JVal::I64(n),
-        Value::Number(Number::U64(n)) => JVal::U64(n),
+        Value::Number(Number::I64(n)) => JVal::Int(n as int),
+        Value::Number(Number::U64(n)) => JVal::Int(n as int),
         Value::String(s) => JVal::Str(s@),
         Value::Array(a) => JVal::Arr(Seq::new(a@.len(), |i: int| if 0 <= i < a@.len() { abs(a@[i]) } else { JVal::Null })),
         Value::Object(m) => JVal::Obj(Seq::new(btree_keys(m).len(), |i: int|
@@ -105,8 +105,8 @@ spec fn abs_json(j: serde_json::Value) -> JVal
         serde_json::Value::Null => JVal::Null,
         serde_json::Value::Bool(b) => JVal::Bool(b),
         serde_json::Value::Number(n) => match serde_json::num_i64(n) {
-            Some(i) => JVal::I64(i),
-            None => match serde_json::num_u64(n) { Some(u) => JVal::U64(u), None => JVal::Null },
+            Some(i) => JVal::Int(i as int),
+            None => match serde_json::num_u64(n) { Some(u) => JVal::Int(u as int), None => JVal::Null },
         },
         serde_json::Value::String(s) => JVal::Str(s@),
         serde_json::Value::Array(a) => JVal::Arr(Seq::new(a@.len(), |i: int| if 0 <= i < a@.len() { abs_json(a@[i]) } else { JVal::Null })),
